@@ -425,6 +425,13 @@ func (e *Engine) modularCall(s *State, fr *Frame, c *FuncContract, key string, s
 			vtypes[n] = ptypes[i]
 		}
 	}
+	// the receiver of a method is always reachable as "recv" (its declared name is unknown for code outside the repository)
+	if sig.Recv() != nil && len(args) > 0 && len(ptypes) > 0 {
+		if _, ok := vars["recv"]; !ok {
+			vars["recv"] = args[0]
+			vtypes["recv"] = ptypes[0]
+		}
+	}
 	// implicit: non-nullable pointer params non-nil
 	for i, n := range names {
 		if i >= len(args) {
@@ -488,6 +495,10 @@ func (e *Engine) modularCall(s *State, fr *Frame, c *FuncContract, key string, s
 	w.Readers = map[int]bool{}
 	e.havocWrites(s, fr, w, "call."+sanitize(shortKey(key)))
 	rv := e.freshResults(s, sig, shortKey(key))
+	if c.Flags["fresh_result"] != "" {
+		// constructor contract: every pointer result is a newly allocated object (distinct from all existing ones)
+		rv = e.freshenPointerResults(rv)
+	}
 	// bind results
 	var results []Value
 	if tv, ok := rv.(*Tuple); ok {
@@ -615,6 +626,15 @@ func (e *Engine) resolveAssign(s *State, env *Env, a string, w *WriteSet) {
 		return
 	case "*":
 		w.setAll("calls.go:513")
+		return
+	}
+	if ks, ok := e.ghostAssignKeys(a); ok {
+		for _, k := range ks {
+			w.Heap[k] = true
+		}
+		return
+	}
+	if e.pointeeAssign(s, env, a, w) {
 		return
 	}
 	if strings.HasPrefix(a, "Mem(") {
